@@ -110,6 +110,10 @@ def cases(tier, seed):
             for seg in 'ce':
                 out.append(("%s\n.%s '%s'" % ('.cseg' if seg == 'c' else '.eseg', dt, ch), [(seg, dt, ['v%d' % ord(ch)])]))
                 out.append(("%s\n.%s 1, '%s'+0, 2" % ('.cseg' if seg == 'c' else '.eseg', dt, ch), [(seg, dt, ['v1', 'v%d' % ord(ch), 'v2'])]))
+    # the caller's data lines behind a macro whose body ENDS in another segment: padded (flash) or not (EEPROM) by the
+    # segment they land in
+    out.append(('.macro toee\n.eseg\n.endm\n toee\n.db 1, 2, 3\n.db "abc"\n.db 7', [('e', 'db', ['v1', 'v2', 'v3']), ('e', 'db', ['v97', 'v98', 'v99']), ('e', 'db', ['v7'])]))
+    out.append(('.macro sw\n.if @0\n.eseg\n.else\n.cseg\n.endif\n.endm\n sw 0\n.db 8\n sw 1\n.db 9\n.dw 7\n.db 6', [('c', 'db', ['v8']), ('e', 'db', ['v9']), ('e', 'dw', ['v7']), ('e', 'db', ['v6'])]))
     for k in range(1, 5):   # k odd .db lines in a row
         out.append(('\n'.join('.db %d' % (i + 1) for i in range(k)), [('c', 'db', ['v%d' % (i + 1)]) for i in range(k)]))
     return out
